@@ -11,7 +11,8 @@ delimiter / an invalid boundary parameter / one undecodable part under `attachme
   (e) as an `attachment` condition after a pass, next to / inside an `attachment { ... }` action block of a passing rule, as an
       attachment block whose parts cannot all be evaluated,
 
-and in randomly generated trees of the same grammar (1-3 rules per block, nesting up to 2, pass / break, attachment blocks).  Every
+and in randomly generated trees of the same grammar (1-3 rules per block, nesting up to 2, pass / break, attachment blocks); every
+shape also as a delivery on standard input (`stdin { ... }`, mdsort -: documented error => exit status 75, nothing delivered).  Every
 maildir mixes healthy and defective messages; whether a message is defective under a configuration is not decided by the generator
 but by the DOCUMENTED rule semantics: `Spec.evalBlockA` of Spec/RulesAtt.lean, evaluated by the Lean driver (`S evalatt`) on the tree
 the real parser built - the instance the theorems C03_eval_refines_spec_att and C04_eval_error_propagates are about.
@@ -207,8 +208,8 @@ class Text:
             if r[3]:
                 self.lines.append('%s\t%s' % (pad, r[3]))
 
-    def config(self, rs):
-        self.lines.append('maildir "%s/src" {' % R)
+    def config(self, rs, stdin=False):
+        self.lines.append('stdin {' if stdin else 'maildir "%s/src" {' % R)
         self.rules(rs, 1)
         self.lines.append('}')
         return '\n'.join(self.lines) + '\n'
@@ -353,6 +354,15 @@ def jobs(tier, seed):
             picks = ([(s, d, (1,) * NBITS) for s, d in bad] + [(s, d, (0,) * NBITS) for s, d in bad[:3]] + [(s, d, (1, 0, 0)) for s, d in bad[:3]] +
                      [(s, d, None) for s, d in ok])
             out.append(('fixed', sname, tree, fcond) + mk_population(frng, picks))
+    # the same shapes as a delivery on standard input (`stdin { ... }`, mdsort -): one message that cannot be evaluated, one that can
+    for sname, tree in SHAPES.items():
+        for fcond in FCONDS:
+            bad, ok = candidates(fcond, tree)
+            for struct, date in (bad[0], ok[0]):
+                msgs, meta = mk_population(frng, [(struct, date, (1, 0, 0))])
+                (key, data), = msgs.items()
+                meta[1].update(sub='new', name='1.host')
+                out.append(('stdin', sname, tree, fcond, {('new', '1.host'): data}, meta))
     # one defective message among healthy ones (the exit status then depends on that message alone), shapes x conditions sampled
     rng = random.Random(seed + 12)
     nsingle = 40 if tier == 'quick' else 1200
@@ -456,12 +466,16 @@ def strip_label(data):
 def run_job(tools, W, job):
     family, sname, tree, fcond, msgs, meta = job
     tx = Text(fcond)
-    conf = tx.config(tree)
+    is_stdin = family == 'stdin'
+    conf = tx.config(tree, stdin=is_stdin)
     t = {}
-    t.update(proc.maildir_tree('src', msgs))
     t.update(proc.maildir_tree('dst', {}))
     t.update(proc.maildir_tree('dst2', {}))
-    spec = ws.Spec('rule-shape', conf, tx.pats, tree=t)
+    if is_stdin:
+        spec = ws.Spec('rule-shape-stdin', conf, tx.pats, tree=t, stdin=msgs[('new', '1.host')], args=['-'], kind='stdin')
+    else:
+        t.update(proc.maildir_tree('src', msgs))
+        spec = ws.Spec('rule-shape', conf, tx.pats, tree=t)
     scen = spec.build(tools)
     try:
         blocks = W.blocks(scen, tx.pats)
@@ -474,11 +488,12 @@ def run_job(tools, W, job):
         reqs = []
         for i in ids:
             m = meta[i]
-            path = '%s/src/%s/%s' % (scen.root, m['sub'], m['name'])
+            # (a delivery is evaluated in the spool maildir mdsort makes below TMPDIR: <tmp>/<made by mkdtemp>/new/<generated name>)
+            path = ('%s/tmp/spool/new/%s' % (scen.root, m['name'])) if is_stdin else '%s/src/%s/%s' % (scen.root, m['sub'], m['name'])
             reqs.append('S evalatt ' + ' '.join(vlib.hexs(x) for x in (ast.encode('latin-1'), msgs[(m['sub'], m['name'])], path.encode('latin-1'), b'0',
                                                                           str(NOW).encode())))
         r = scen.run()
-        rq, _, _ = W.request(scen, tx.pats, r)
+        rq, _, _ = W.request(scen, tx.pats, r, stdin=is_stdin)
         return {'family': family, 'shape': sname, 'fcond': fcond, 'config': scen.config.replace(scen.root, R).replace(tools.helper, H), 'meta': meta, 'ids': ids,
                 'msgs': msgs, 'table': table, 'spec_reqs': reqs, 'conform_req': rq, 'scen': scen, 'r': r}
     except Exception:
@@ -486,8 +501,58 @@ def run_job(tools, W, job):
         raise
 
 
+def judge_stdin(x, sp):
+    """A delivery (mdsort -): documented ERROR => exit status 75 (EX_TEMPFAIL: the MTA keeps the message), nothing delivered, no command;
+    documented MATCH with a move => exit status 0, the message exactly once in <destination>/new, commands as planned; always: nothing
+    left in TMPDIR."""
+    r, table = x['r'], x['table']
+    orig = x['msgs'][('new', '1.host')]
+    m = x['meta'][1]
+    desc = 'the message on standard input (%s, Date %s)' % (m['structure'], m['date'])
+    probs = []
+    if sp is None:
+        raise vlib.CheckError('c04shapes: the specification side gave no verdict')
+    files = ws.maildir_files(r.final)
+    stored = sorted(rel for rel, d in files.items() if not rel.startswith('tmp/'))
+    got = helper_records(r).get(1, [])
+    if ws.tmp_entries(r.final):
+        probs.append('spool left in TMPDIR: %s' % ws.tmp_entries(r.final))
+    if sp['crosses'] or sp['leaks']:
+        return probs, {1: 'crosses' if sp['crosses'] else 'leaks'}
+    if sp['res'] == 'ERROR':
+        if r.status != 75:
+            probs.append('%s cannot be evaluated (documented result: error) but the exit status is %r, not 75' % (desc, r.status))
+        if stored:
+            probs.append('%s cannot be evaluated but was delivered to %s' % (desc, stored))
+        if got:
+            probs.append('%s cannot be evaluated but commands were run for it: %s' % (desc, got))
+    elif sp['res'] == 'MATCH':
+        plan = [table.get((t, l), (t, '?')) + (p,) for t, l, p in sp['actions']]
+        moves = [v for k, v, p in plan if k == 'move']
+        want_exec = [(v, p) for k, v, p in plan if k == 'exec']
+        if got != want_exec:
+            probs.append('%s: commands ran as %s, documented plan %s (tag, part; 0 = whole message)' % (desc, got, want_exec))
+        if moves:
+            if r.status != 0:
+                probs.append('%s can be evaluated and delivered but the exit status is %r: %s' % (desc, r.status, r.err[-300:].decode('latin-1')))
+            if len(stored) != 1 or not stored[0].startswith(moves[-1] + '/new/'):
+                probs.append('%s is at %s, documented place %s/new' % (desc, stored, moves[-1]))
+            else:
+                body, lab = strip_label(files[stored[0]])
+                if body != orig or (lab or '') != ' '.join(v for k, v, p in plan if k == 'label'):
+                    probs.append('%s: delivered content / X-Label %r differ from the documented ones' % (desc, lab))
+    else:
+        if stored or got:
+            probs.append('%s matches no rule but was delivered to %s / commands %s' % (desc, stored, got))
+    if r.status not in (0, 75):
+        probs.append('exit status %r (a delivery ends with 0, 75 or - after reject - 1)' % (r.status,))
+    return probs, {1: sp['res']}
+
+
 def judge(x, specs):
     """-> (problems, per-message classification)"""
+    if x['family'] == 'stdin':
+        return judge_stdin(x, specs[0])
     r, meta, msgs, table = x['r'], x['meta'], x['msgs'], x['table']
     probs, cls = [], {}
     files = ws.maildir_files(r.final)
@@ -587,7 +652,7 @@ def stage(rep, tools, W):
                     'failing_condition': x['fcond'], 'config': x['config'], 'exit_status': x['r'].status,
                     'stderr': x['r'].err[-400:].decode('latin-1').replace(x['scen'].root, R),
                     'documented': {str(i): cls[i] for i in cls},
-                    'messages': {'src/%s/%s' % k: v.decode('latin-1') for k, v in x['msgs'].items()}}
+                    'messages': {('stdin' if x['family'] == 'stdin' else 'src/%s/%s' % k): v.decode('latin-1') for k, v in x['msgs'].items()}}
             if probs:
                 stats['failing'] += 1
                 if nrep < 6:
@@ -626,15 +691,21 @@ def stage(rep, tools, W):
 
 def replay(rep, tools, W, j):
     """Re-run a recorded rule-shape finding: the configuration and the messages are in the replay file."""
-    msgs = {}
+    msgs, stdin = {}, None
     for rel, data in (j.get('messages') or {}).items():
+        if rel == 'stdin':
+            stdin = data.encode('latin-1')
+            continue
         _, sub, name = rel.split('/', 2)
         msgs[(sub, name)] = data.encode('latin-1')
     t = {}
-    t.update(proc.maildir_tree('src', msgs))
     t.update(proc.maildir_tree('dst', {}))
     t.update(proc.maildir_tree('dst2', {}))
-    scen = ws.Spec('rule-shape', j['config'], [], tree=t).build(tools)
+    if stdin is not None:
+        scen = ws.Spec('rule-shape-stdin', j['config'], [], tree=t, stdin=stdin, args=['-'], kind='stdin').build(tools)
+    else:
+        t.update(proc.maildir_tree('src', msgs))
+        scen = ws.Spec('rule-shape', j['config'], [], tree=t).build(tools)
     try:
         r = scen.run()
         print('config:\n%s' % j['config'])
